@@ -123,9 +123,7 @@ def judge(c, ir, ms):
     mt = H.text_pair(ms)
     if f:
         fid = None
-        if has_keyword_symbol(c['script']) and mt is not None and mt[0] == lingo:
-            fid = 'C02-keyword-symbol'
-        elif has_compound_id(c['script']) and mt is not None and mt[0] == lingo:
+        if has_compound_id(c['script']) and mt is not None and mt[0] == lingo:
             fid = 'C02-compound-object-index'
         out.append((f, 'property', fid))
         return out
